@@ -1,197 +1,468 @@
 /-
-C10 — the `strto*`/`sto*`/`ato*` family against the C grammar, outside the recorded deviations.
+C10 — the `strto*`/`sto*`/`ato*` family (`strings::detail::strto_integer`) against the C grammar
+(C17 7.22.1.4, `Spec.strto`): every text, every base `0, 2..36`.
 -/
 import TetlProofs.C10.Parse
 import TetlProofs.C10.Auto
+import TetlProofs.C10.UncheckedEnd
 namespace Tetl.C10
 open Tetl
 
-/-- Outside the four input classes of the recorded deviations the C grammar (`Spec.strto`) and the
-    `from_chars` grammar with white space (`Spec.parse … true`) denote the same value and end. -/
-theorem strto_spec_eq (t : IntTy) (s : List Nat) (b : Nat) (hb : 2 ≤ b ∧ b ≤ 36)
-    (h1 : Spec.plusSign s = false) (h2 : Spec.basePrefix s b = false)
-    (h3 : Spec.unsignedMinus t s = false) (h4 : (Spec.strto t s b).erange = false) :
-    (TIRes.ofSpec (Spec.parse t true s b)).value = (Spec.strto t s b).value ∧
-    (TIRes.ofSpec (Spec.parse t true s b)).endPos = (Spec.strto t s b).endPos := by
-  unfold Spec.plusSign at h1
-  unfold Spec.basePrefix at h2
-  unfold Spec.unsignedMinus at h3
-  unfold Spec.strto at h4 ⊢
-  unfold Spec.parse
-  simp only [if_true] at *
-  generalize s.dropWhile Spec.isSpace = s1 at *
-  have hb0 : (b == 0) = false := by simp; omega
-  cases s1 with
-  | nil => simp [TIRes.ofSpec, TIRes.mkErr, Spec.hexPrefix]
-  | cons c r =>
-    simp only [List.head?_cons] at *
-    have hc43 : (some c == some 43) = false := h1
-    by_cases hc : c = 45
-    · subst hc
-      have hs : t.signed = true := by
-        cases hsg : t.signed with
-        | true => rfl
-        | false => simp [hsg] at h3
-      simp only [beq_self_eq_true, Bool.true_or, if_true, List.drop_succ_cons, List.drop_zero, hs, Bool.and_self,
-        hb0, Bool.false_or] at h2 h4 ⊢
-      have hhex : ((b == 16) && Spec.hexPrefix r) = false := h2
-      simp only [hhex, Bool.false_eq_true, if_false] at h4 ⊢
-      cases hemp : (List.takeWhile (Spec.isDigitOf b) r).isEmpty with
-      | true => simp [TIRes.ofSpec, TIRes.mkErr]
-      | false =>
-        simp only [hemp, Bool.false_eq_true, if_false] at h4 ⊢
-        generalize Spec.valueOf b (List.takeWhile (Spec.isDigitOf b) r) = m at *
-        by_cases hgt : -(m : Int) > t.maxV
-        · simp [hgt] at h4
-        · by_cases hlt : -(m : Int) < t.minV
-          · simp [hgt, hlt] at h4
-          · have hr : t.inRange (-(m : Int)) = true := by rw [IntTy.inRange_iff]; omega
-            simp [hgt, hlt, hr, TIRes.ofSpec]
-    · have hc45 : (some c == some 45) = false := by simp [hc]
-      simp only [hc45, hc43, Bool.and_false, Bool.or_self, Bool.false_eq_true, if_false, hb0, Bool.false_or] at h2 h4 ⊢
-      have hhex : ((b == 16) && Spec.hexPrefix (c :: r)) = false := h2
-      simp only [hhex, Bool.false_eq_true, if_false] at h4 ⊢
-      cases hemp : (List.takeWhile (Spec.isDigitOf b) (c :: r)).isEmpty with
-      | true => simp [TIRes.ofSpec, TIRes.mkErr]
-      | false =>
-        simp only [hemp, Bool.false_eq_true, if_false] at h4 ⊢
-        generalize Spec.valueOf b (List.takeWhile (Spec.isDigitOf b) (c :: r)) = m at *
-        have hmin := t.minV_nonpos
-        cases hsg : t.signed with
-        | true =>
-          simp only [hsg, if_true] at h4 ⊢
-          by_cases hgt : (m : Int) > t.maxV
-          · simp [hgt] at h4
-          · have hlt : ¬ (m : Int) < t.minV := by omega
-            have hr : t.inRange (m : Int) = true := by rw [IntTy.inRange_iff]; omega
-            simp [hgt, hlt, hr, TIRes.ofSpec]
-        | false =>
-          simp only [hsg, Bool.false_eq_true, if_false] at h4 ⊢
-          by_cases hgt : (m : Int) > t.maxV
-          · simp [hgt] at h4
-          · have hr : t.inRange (m : Int) = true := by rw [IntTy.inRange_iff]; omega
-            simp [hgt, hr, TIRes.ofSpec]
+/-! ### conversions between `Int` and `UInt` -/
 
-/-- The same with base 0: the C grammar with auto-detected base and `Spec.parseAuto` with white space denote
-    the same value and end outside the three classes that remain (`Spec.basePrefix` needs base 16). -/
-theorem strto_spec_eq_auto (t : IntTy) (s : List Nat)
-    (h1 : Spec.plusSign s = false) (h3 : Spec.unsignedMinus t s = false)
-    (h4 : (Spec.strto t s 0).erange = false) :
-    (TIRes.ofSpec (Spec.parseAuto t true s)).value = (Spec.strto t s 0).value ∧
-    (TIRes.ofSpec (Spec.parseAuto t true s)).endPos = (Spec.strto t s 0).endPos := by
-  unfold Spec.plusSign at h1
-  unfold Spec.unsignedMinus at h3
-  unfold Spec.strto at h4 ⊢
-  unfold Spec.parseAuto
-  simp only [if_true] at *
-  generalize s.dropWhile Spec.isSpace = s1 at *
-  have hb0 : ((0 : Nat) == 0) = true := rfl
-  have hb16 : ((0 : Nat) == 16) = false := rfl
-  simp only [hb0, hb16, Bool.or_false, Bool.true_and, if_true] at h4 ⊢
-  -- both sides share sign handling, base, prefix and digit run: name them
-  have fin : ∀ (neg : Bool) (s2 : List Nat), (neg = true → t.signed = true) →
-      (let hex := Spec.hexPrefix s2
-       let b := if hex then 16 else if s2.head? == some 48 then 8 else 10
-       let s3 := if hex then s2.drop 2 else s2
+theorem two_pow_split (bits : Nat) (h : 1 ≤ bits) : (2 : Int) ^ bits = 2 * 2 ^ (bits - 1) := by
+  have e : bits = (bits - 1) + 1 := by omega
+  conv => lhs; rw [e, Int.pow_succ]
+  omega
+
+theorem two_pow_pos' (n : Nat) : (0 : Int) < 2 ^ n := Int.pow_pos (by decide)
+
+/-- a value of the type is unchanged by the conversion to the type -/
+theorem IntTy.wrap_of_inRange {t : IntTy} (h1 : 1 ≤ t.bits) {x : Int} (hx : t.inRange x = true) : t.wrap x = x := by
+  rw [IntTy.inRange_iff] at hx
+  unfold IntTy.wrap
+  have hsplit := two_pow_split t.bits h1
+  have hP := two_pow_pos' (t.bits - 1)
+  unfold IntTy.minV IntTy.maxV at hx
+  cases hs : t.signed with
+  | false =>
+    simp only [hs, Bool.false_eq_true, if_false, Bool.false_and] at hx ⊢
+    exact Int.emod_eq_of_lt hx.1 (by omega)
+  | true =>
+    simp only [hs, if_true, Bool.true_and] at hx ⊢
+    generalize (2 : Int) ^ (t.bits - 1) = P at *
+    rw [hsplit]
+    by_cases hneg : x < 0
+    · have e : x % (2 * P) = x + 2 * P := by
+        have : (x + 2 * P) % (2 * P) = x % (2 * P) := by
+          rw [Int.add_emod_right]
+        rw [← this]
+        exact Int.emod_eq_of_lt (by omega) (by omega)
+      rw [e]
+      have : decide (x + 2 * P ≥ P) = true := by simp; omega
+      simp only [this, if_true]
+      omega
+    · have e : x % (2 * P) = x := Int.emod_eq_of_lt (by omega) (by omega)
+      rw [e]
+      have : decide (x ≥ P) = false := by simp; omega
+      simp only [this, Bool.false_eq_true, if_false]
+
+/-- `static_cast<Int>(UInt{0} - magnitude)` is `-magnitude` for every magnitude up to `|min()|` -/
+theorem wrap_neg_signed {t : IntTy} (h1 : 1 ≤ t.bits) (hs : t.signed = true) {m : Int} (h0 : 0 ≤ m)
+    (hm : m ≤ t.maxV + 1) : t.wrap ((⟨t.bits, false⟩ : IntTy).wrap (0 - m)) = -m := by
+  unfold IntTy.wrap
+  have hsplit := two_pow_split t.bits h1
+  have hP := two_pow_pos' (t.bits - 1)
+  unfold IntTy.maxV at hm
+  simp only [hs, if_true, Bool.true_and, Bool.false_and, Bool.false_eq_true, if_false] at hm ⊢
+  rw [Int.emod_emod_of_dvd _ (Int.dvd_refl _)]
+  generalize (2 : Int) ^ (t.bits - 1) = P at *
+  rw [hsplit]
+  by_cases hz : m = 0
+  · subst hz
+    simp
+    omega
+  · have e : (0 - m) % (2 * P) = 2 * P - m := by
+      have : (0 - m + 2 * P) % (2 * P) = (0 - m) % (2 * P) := by rw [Int.add_emod_right]
+      rw [← this]
+      have : 0 - m + 2 * P = 2 * P - m := by omega
+      rw [this]
+      exact Int.emod_eq_of_lt (by omega) (by omega)
+    rw [e]
+    have : decide (2 * P - m ≥ P) = true := by simp; omega
+    simp only [this, if_true]
+    omega
+
+/-- for an unsigned type `UInt` is the type itself -/
+theorem wrap_wrap_unsigned {t : IntTy} (hs : t.signed = false) (x : Int) :
+    t.wrap ((⟨t.bits, false⟩ : IntTy).wrap x) = t.wrap x := by
+  unfold IntTy.wrap
+  simp only [hs, Bool.false_and, Bool.false_eq_true, if_false]
+  rw [Int.emod_emod_of_dvd _ (Int.dvd_refl _)]
+
+/-! ### from the digits on -/
+
+/-- the value the C grammar assigns to magnitude `m` with sign `neg` in the type `t`: saturation at the limits,
+    negation modulo `2^bits` for unsigned types (the value part of `Spec.strto`) -/
+def Spec.strtoValue (t : IntTy) (neg : Bool) (m : Nat) : Int :=
+  if t.signed then
+    let v : Int := if neg then -(m : Int) else m
+    if v > t.maxV then t.maxV else if v < t.minV then t.minV else v
+  else if (m : Int) > t.maxV then t.maxV
+  else if neg then t.wrap (-(m : Int)) else m
+
+theorem inRange_unsigned_iff (bits : Nat) (m : Nat) :
+    (⟨bits, false⟩ : IntTy).inRange (m : Int) = true ↔ (m : Int) ≤ 2 ^ bits - 1 := by
+  rw [IntTy.inRange_iff]
+  simp only [IntTy.minV, IntTy.maxV, Bool.false_eq_true, if_false]
+  omega
+
+theorem maxV_le_umax (t : IntTy) (h1 : 1 ≤ t.bits) : t.maxV ≤ 2 ^ t.bits - 1 ∧ t.maxV + 1 ≤ 2 ^ t.bits - 1 ∨ t.signed = false := by
+  cases hs : t.signed with
+  | false => right; rfl
+  | true =>
+    left
+    have hsplit := two_pow_split t.bits h1
+    have hP : (1 : Int) ≤ 2 ^ (t.bits - 1) := two_pow_pos' _
+    simp only [IntTy.maxV, hs, if_true]
+    omega
+
+/-- `strto_integer` from the digits on, given what the checked conversion of the digits returns (`hchk`) and
+    where the unchecked one ends (`hnc`) -/
+theorem strtoDigits_spec (t : IntTy) (h8 : 8 ≤ t.bits) (negative : Bool) (pos : Nat) (digits : List Nat) (base : Int)
+    (b off : Nat) (s3 : List Nat)
+    (hchk : toInteger ⟨t.bits, false⟩ false digits base
+      = .ok (TIRes.ofSpec (Spec.digitsOutcome ⟨t.bits, false⟩ b false off s3)))
+    (hnc : ∀ n, Spec.digitsOutcome ⟨t.bits, false⟩ b false off s3 = .range n →
+      ∃ r, toIntegerNC ⟨t.bits, false⟩ false digits base = .ok r ∧ r.endPos = n) :
+    strtoDigits t negative pos digits base =
+      .ok (if (s3.takeWhile (Spec.isDigitOf b)).isEmpty then (0, 0)
+           else (Spec.strtoValue t negative (Spec.valueOf b (s3.takeWhile (Spec.isDigitOf b))),
+                 pos + (off + (s3.takeWhile (Spec.isDigitOf b)).length))) := by
+  unfold strtoDigits
+  dsimp only
+  rw [hchk]
+  simp only [ok_bind]
+  have h1 : 1 ≤ t.bits := by omega
+  cases hemp : (s3.takeWhile (Spec.isDigitOf b)).isEmpty with
+  | true =>
+    have hout : Spec.digitsOutcome ⟨t.bits, false⟩ b false off s3 = .invalid := by
+      simp only [Spec.digitsOutcome, hemp, if_true]
+    rw [hout]
+    simp [TIRes.ofSpec, TIRes.mkErr]
+  | false =>
+    simp only [Bool.false_eq_true, if_false]
+    have hsplit := two_pow_split t.bits h1
+    have hP : (1 : Int) ≤ 2 ^ (t.bits - 1) := two_pow_pos' _
+    cases hin : (⟨t.bits, false⟩ : IntTy).inRange (Spec.valueOf b (s3.takeWhile (Spec.isDigitOf b)) : Int) with
+    | false =>
+      -- the digits overflow `UInt`: second pass, saturated value
+      have hout : Spec.digitsOutcome ⟨t.bits, false⟩ b false off s3
+          = .range (off + (s3.takeWhile (Spec.isDigitOf b)).length) := by
+        simp only [Spec.digitsOutcome, hemp, Bool.false_eq_true, if_false, hin]
+      obtain ⟨r, hr, hre⟩ := hnc _ hout
+      rw [hout]
+      generalize Spec.valueOf b (s3.takeWhile (Spec.isDigitOf b)) = m at *
+      generalize (s3.takeWhile (Spec.isDigitOf b)).length = k at *
+      have hbig : ¬ (m : Int) ≤ 2 ^ t.bits - 1 := by
+        rw [← inRange_unsigned_iff]; simp [hin]
+      simp only [TIRes.ofSpec, TIRes.mkErr, hr, ok_bind, hre]
+      congr 2
+      unfold Spec.strtoValue IntTy.maxV IntTy.minV
+      cases hs : t.signed with
+      | true =>
+        cases negative with
+        | true =>
+          simp only [if_true]
+          rw [if_neg (by omega), if_pos (by omega)]
+        | false =>
+          simp only [if_true, Bool.false_eq_true, if_false]
+          rw [if_pos (by omega)]
+      | false =>
+        simp only [Bool.false_eq_true, if_false]
+        rw [if_pos (by omega)]
+    | true =>
+      have hout : Spec.digitsOutcome ⟨t.bits, false⟩ b false off s3
+          = .ok (Spec.valueOf b (s3.takeWhile (Spec.isDigitOf b)) : Int) (off + (s3.takeWhile (Spec.isDigitOf b)).length) := by
+        simp only [Spec.digitsOutcome, hemp, Bool.false_eq_true, if_false, hin, if_true]
+      rw [hout]
+      generalize Spec.valueOf b (s3.takeWhile (Spec.isDigitOf b)) = m at *
+      generalize (s3.takeWhile (Spec.isDigitOf b)).length = k at *
+      have hsmall : (m : Int) ≤ 2 ^ t.bits - 1 := (inRange_unsigned_iff _ _).mp hin
+      simp only [TIRes.ofSpec]
+      unfold Spec.strtoValue
+      cases hs : t.signed with
+      | true =>
+        have hmaxV : t.maxV = 2 ^ (t.bits - 1) - 1 := by simp [IntTy.maxV, hs]
+        have hminV : t.minV = -(2 ^ (t.bits - 1)) := by simp [IntTy.minV, hs]
+        simp only [Bool.true_and, if_true]
+        cases negative with
+        | true =>
+          simp only [if_true]
+          by_cases hgt : (m : Int) > t.maxV + 1
+          · rw [if_pos (by simpa using hgt), if_neg (by omega), if_pos (by omega)]
+          · rw [if_neg (by simpa using hgt), if_neg (by omega), if_neg (by omega)]
+            rw [wrap_neg_signed h1 hs (by omega) (by omega)]
+        | false =>
+          simp only [Bool.false_eq_true, if_false, Int.add_zero]
+          by_cases hgt : (m : Int) > t.maxV
+          · rw [if_pos (by simpa using hgt), if_pos hgt]
+          · rw [if_neg (by simpa using hgt), if_neg hgt, if_neg (by omega)]
+            rw [IntTy.wrap_of_inRange h1 (by rw [IntTy.inRange_iff]; omega)]
+      | false =>
+        have hmaxV : t.maxV = 2 ^ t.bits - 1 := by simp [IntTy.maxV, hs]
+        simp only [Bool.false_and, Bool.false_eq_true, if_false]
+        rw [if_neg (show ¬ (m : Int) > t.maxV by omega)]
+        cases negative with
+        | true =>
+          simp only [if_true]
+          rw [wrap_wrap_unsigned hs]
+          congr 3
+          omega
+        | false =>
+          simp only [Bool.false_eq_true, if_false]
+          rw [IntTy.wrap_of_inRange h1 (by rw [IntTy.inRange_iff]; simp only [IntTy.minV, hs, Bool.false_eq_true, if_false]; omega)]
+
+/-! ### sign and prefix -/
+
+theorem isxdigit_spec {d : Nat} (hd : d < 256) : isxdigit (toInt d) = Spec.isDigitOf 16 d := by
+  have key : isxdigit (toInt d) = true ↔ (48 ≤ d ∧ d ≤ 57) ∨ (97 ≤ d ∧ d ≤ 102) ∨ (65 ≤ d ∧ d ≤ 70) := by
+    unfold isxdigit toInt
+    simp only [Bool.or_eq_true, Bool.and_eq_true, decide_eq_true_eq]
+    split <;> omega
+  rw [Bool.eq_iff_iff, key]
+  unfold Spec.isDigitOf
+  by_cases h1 : 48 ≤ d ∧ d ≤ 57
+  · have hdv : Spec.digitVal d = some (d - 48) := by simp [Spec.digitVal, h1]
+    rw [hdv]; simp only [decide_eq_true_eq]; omega
+  · by_cases h2 : 97 ≤ d ∧ d ≤ 122
+    · have hdv : Spec.digitVal d = some (d - 87) := by simp [Spec.digitVal, h1, h2]
+      rw [hdv]; simp only [decide_eq_true_eq]; omega
+    · by_cases h3 : 65 ≤ d ∧ d ≤ 90
+      · have hdv : Spec.digitVal d = some (d - 55) := by simp [Spec.digitVal, h1, h2, h3]
+        rw [hdv]; simp only [decide_eq_true_eq]; omega
+      · have hdv : Spec.digitVal d = none := by simp [Spec.digitVal, h1, h2, h3]
+        rw [hdv]; simp only [Bool.false_eq_true, iff_false]; omega
+
+/-- number of characters of the optional sign -/
+def Spec.signLen (s1 : List Nat) : Nat := if s1.head? == some 45 || s1.head? == some 43 then 1 else 0
+
+theorem strtoSign_spec (pre s1 : List Nat) :
+    strtoSign (pre ++ s1) pre.length = .ok (s1.head? == some 45, pre.length + Spec.signLen s1) := by
+  unfold strtoSign Spec.signLen
+  cases s1 with
+  | nil => simp
+  | cons c r =>
+    have hne : (pre.length != (pre ++ c :: r).length) = true := by simp
+    simp only [hne, if_true, rd_append, ok_bind, List.head?_cons]
+    by_cases h45 : c = 45
+    · subst h45; simp
+    · by_cases h43 : c = 43
+      · subst h43; simp
+      · simp [h45, h43]
+
+theorem signLen_drop (s1 : List Nat) :
+    s1.drop (Spec.signLen s1) = (if s1.head? == some 45 || s1.head? == some 43 then s1.drop 1 else s1) := by
+  unfold Spec.signLen
+  split <;> simp
+
+theorem signLen_le (s1 : List Nat) : Spec.signLen s1 ≤ s1.length := by
+  unfold Spec.signLen
+  cases s1 with
+  | nil => simp
+  | cons c r => simp only [List.length_cons]; split <;> omega
+
+theorem hexPrefix_length {s2 : List Nat} (h : Spec.hexPrefix s2 = true) : 3 ≤ s2.length := by
+  match s2, h with
+  | _ :: _ :: _ :: _, _ => simp
+  | [], h => simp [Spec.hexPrefix] at h
+  | [_], h => simp [Spec.hexPrefix] at h
+  | [_, _], h => simp [Spec.hexPrefix] at h
+
+theorem strtoPrefix_spec (pre s2 : List Nat) (hbytes : ∀ c ∈ s2, c < 256) (base : Int) :
+    strtoPrefix (pre ++ s2) base pre.length =
+      .ok (pre.length + (if (base == 16 && Spec.hexPrefix s2) = true then 2 else 0)) := by
+  unfold strtoPrefix
+  cases hb : (base == 16) with
+  | false => simp
+  | true =>
+    simp only [Bool.true_and]
+    match s2, hbytes with
+    | [], _ => simp [Spec.hexPrefix]
+    | [_], _ => simp [Spec.hexPrefix]
+    | [_, _], _ => simp [Spec.hexPrefix]
+    | c0 :: x :: d :: r4, hbytes =>
+      have hd : d < 256 := hbytes d (by simp)
+      have hlen : (pre ++ c0 :: x :: d :: r4).length - pre.length > 2 := by
+        simp only [List.length_append, List.length_cons]; omega
+      have r1 : rd (pre ++ c0 :: x :: d :: r4) (pre.length + 1) = .ok x := by
+        rw [rd_append_add]; rfl
+      have r2 : rd (pre ++ c0 :: x :: d :: r4) (pre.length + 2) = .ok d := by
+        rw [rd_append_add]; rfl
+      simp only [hlen, decide_true, if_true, rd_append, ok_bind, r1, r2, isxdigit_spec hd]
+      by_cases h48 : c0 = 48
+      · subst h48
+        simp only [beq_self_eq_true, if_true, Spec.hexPrefix]
+        cases hx : (x == 120 || x == 88) with
+        | false => simp
+        | true =>
+          simp only [if_true, Bool.true_and]
+          cases Spec.isDigitOf 16 d <;> simp
+      · have hne : (c0 == 48) = false := by simp [h48]
+        have hhex : Spec.hexPrefix (c0 :: x :: d :: r4) = false := by
+          unfold Spec.hexPrefix
+          split
+          · rename_i heq; simp at heq; exact absurd heq.1 h48
+          · rfl
+        simp [hne, hhex]
+
+/-! ### the C grammar, rearranged -/
+
+/-- the base the digits are read in, as a function of the text after the sign -/
+def Spec.strtoBase (s2 : List Nat) (base : Nat) : Nat :=
+  if ((base == 0 || base == 16) && Spec.hexPrefix s2) = true then 16
+  else if (base == 0) = true then (if s2.head? == some 48 then 8 else 10) else base
+
+/-- the text after the prefix -/
+def Spec.strtoRest (s2 : List Nat) (base : Nat) : List Nat :=
+  if ((base == 0 || base == 16) && Spec.hexPrefix s2) = true then s2.drop 2 else s2
+
+/-- value and end of `Spec.strto`, with the pieces named: `s1` = text after the white space, `len` = length of
+    the whole text -/
+theorem strto_fields (t : IntTy) (s0 : List Nat) (base : Nat) :
+    ((Spec.strto t s0 base).value, (Spec.strto t s0 base).endPos) =
+      (let s1 := s0.dropWhile Spec.isSpace
+       let s2 := s1.drop (Spec.signLen s1)
+       let b := Spec.strtoBase s2 base
+       let s3 := Spec.strtoRest s2 base
        let ds := s3.takeWhile (Spec.isDigitOf b)
-       (if ds.isEmpty then (⟨0, 0, false⟩ : Spec.StrtoRes)
-        else
-          let n := s.length - s3.length + ds.length
-          let m : Int := Spec.valueOf b ds
-          if t.signed then
-            let v := if neg then -m else m
-            if v > t.maxV then ⟨t.maxV, n, true⟩
-            else if v < t.minV then ⟨t.minV, n, true⟩
-            else ⟨v, n, false⟩
-          else if m > t.maxV then ⟨t.maxV, n, true⟩
-          else ⟨if neg then t.wrap (-m) else m, n, false⟩).erange = false →
-       (TIRes.ofSpec
-          (if ds.isEmpty then Spec.PRes.invalid
-           else
-             let v : Int := if neg then -(Spec.valueOf b ds : Int) else (Spec.valueOf b ds : Int)
-             let n := s.length - s3.length + ds.length
-             if t.inRange v then .ok v n else .range n)).value =
-         (if ds.isEmpty then (⟨0, 0, false⟩ : Spec.StrtoRes)
-          else
-            let n := s.length - s3.length + ds.length
-            let m : Int := Spec.valueOf b ds
-            if t.signed then
-              let v := if neg then -m else m
-              if v > t.maxV then ⟨t.maxV, n, true⟩
-              else if v < t.minV then ⟨t.minV, n, true⟩
-              else ⟨v, n, false⟩
-            else if m > t.maxV then ⟨t.maxV, n, true⟩
-            else ⟨if neg then t.wrap (-m) else m, n, false⟩).value ∧
-       (TIRes.ofSpec
-          (if ds.isEmpty then Spec.PRes.invalid
-           else
-             let v : Int := if neg then -(Spec.valueOf b ds : Int) else (Spec.valueOf b ds : Int)
-             let n := s.length - s3.length + ds.length
-             if t.inRange v then .ok v n else .range n)).endPos =
-         (if ds.isEmpty then (⟨0, 0, false⟩ : Spec.StrtoRes)
-          else
-            let n := s.length - s3.length + ds.length
-            let m : Int := Spec.valueOf b ds
-            if t.signed then
-              let v := if neg then -m else m
-              if v > t.maxV then ⟨t.maxV, n, true⟩
-              else if v < t.minV then ⟨t.minV, n, true⟩
-              else ⟨v, n, false⟩
-            else if m > t.maxV then ⟨t.maxV, n, true⟩
-            else ⟨if neg then t.wrap (-m) else m, n, false⟩).endPos) := by
-    intro neg s2 hneg
-    dsimp only
-    generalize (if Spec.hexPrefix s2 then 16 else if s2.head? == some 48 then 8 else 10) = b
-    generalize (if Spec.hexPrefix s2 then s2.drop 2 else s2) = s3
-    cases hemp : (List.takeWhile (Spec.isDigitOf b) s3).isEmpty with
-    | true => intro _; simp [TIRes.ofSpec, TIRes.mkErr]
+       if ds.isEmpty then (0, 0)
+       else (Spec.strtoValue t (s1.head? == some 45) (Spec.valueOf b ds), s0.length - s3.length + ds.length)) := by
+  unfold Spec.strto Spec.strtoBase Spec.strtoRest Spec.strtoValue
+  dsimp only
+  rw [signLen_drop]
+  generalize (if ((s0.dropWhile Spec.isSpace).head? == some 45 || (s0.dropWhile Spec.isSpace).head? == some 43) = true
+    then (s0.dropWhile Spec.isSpace).drop 1 else s0.dropWhile Spec.isSpace) = s2
+  generalize ((s0.dropWhile Spec.isSpace).head? == some 45) = neg
+  generalize (if ((base == 0 || base == 16) && Spec.hexPrefix s2) = true then s2.drop 2 else s2) = s3
+  generalize (if ((base == 0 || base == 16) && Spec.hexPrefix s2) = true then 16
+    else if (base == 0) = true then if (s2.head? == some 48) = true then 8 else 10 else base) = b
+  cases hemp : (s3.takeWhile (Spec.isDigitOf b)).isEmpty with
+  | true => simp
+  | false =>
+    simp only [Bool.false_eq_true, if_false]
+    cases t.signed with
+    | true =>
+      simp only [if_true]
+      repeat' split
+      all_goals rfl
     | false =>
       simp only [Bool.false_eq_true, if_false]
-      generalize Spec.valueOf b (List.takeWhile (Spec.isDigitOf b) s3) = m
-      have hmin := t.minV_nonpos
-      cases hsg : t.signed with
-      | true =>
-        simp only [if_true]
-        intro h4
-        by_cases hgt : (if neg = true then -(m : Int) else (m : Int)) > t.maxV
-        · simp [hgt] at h4
-        · by_cases hlt : (if neg = true then -(m : Int) else (m : Int)) < t.minV
-          · simp [hgt, hlt] at h4
-          · have hr : t.inRange (if neg = true then -(m : Int) else (m : Int)) = true := by
-              rw [IntTy.inRange_iff]; omega
-            simp [hgt, hlt, hr, TIRes.ofSpec]
-      | false =>
-        have hnn : neg = false := by
-          cases neg with
-          | false => rfl
-          | true => have := hneg rfl; rw [hsg] at this; cases this
-        subst hnn
-        simp only [Bool.false_eq_true, if_false]
-        intro h4
-        by_cases hgt : (m : Int) > t.maxV
-        · simp [hgt] at h4
-        · have hr : t.inRange (m : Int) = true := by rw [IntTy.inRange_iff]; omega
-          simp [hgt, hr, TIRes.ofSpec]
-  cases s1 with
-  | nil => simp [TIRes.ofSpec, TIRes.mkErr, Spec.hexPrefix]
-  | cons c r =>
-    simp only [List.head?_cons] at *
-    have hc43 : (some c == some 43) = false := h1
-    by_cases hc : c = 45
-    · subst hc
-      have hs : t.signed = true := by
-        cases hsg : t.signed with
-        | true => rfl
-        | false => simp [hsg] at h3
-      simp only [beq_self_eq_true, Bool.true_or, if_true, List.drop_succ_cons, List.drop_zero, hs, Bool.and_self]
-        at h4 ⊢
-      have := fin true r (fun _ => hs)
-      simp only [hs, if_true] at this
-      exact this h4
-    · have hc45 : (some c == some 45) = false := by simp [hc]
-      simp only [hc45, hc43, Bool.and_false, Bool.or_self, Bool.false_eq_true, if_false] at h4 ⊢
-      have := fin false (c :: r) (fun h => by cases h)
-      simp only [Bool.false_eq_true, if_false, List.head?_cons] at this
-      exact this h4
+      repeat' split
+      all_goals rfl
+
+/-! ### `strto_integer` = the C grammar -/
+
+theorem drop_add_append (pre s : List Nat) (k : Nat) : (pre ++ s).drop (pre.length + k) = s.drop k := by
+  rw [List.drop_append]; simp
+
+theorem cast_beq16 (b : Nat) : ((b : Int) == 16) = (b == 16) := by
+  rw [Bool.eq_iff_iff, beq_iff_eq, beq_iff_eq]; omega
+
+/-- after the white space: sign, prefix, digits -/
+theorem strtoAt_spec (t : IntTy) (h8 : 8 ≤ t.bits) (pre s1 : List Nat) (hbytes : ∀ c ∈ s1, c < 256)
+    (b : Nat) (hb : b = 0 ∨ (2 ≤ b ∧ b ≤ 36)) :
+    strtoAt t (pre ++ s1) b pre.length =
+      .ok (let s2 := s1.drop (Spec.signLen s1)
+           let bb := Spec.strtoBase s2 b
+           let s3 := Spec.strtoRest s2 b
+           let ds := s3.takeWhile (Spec.isDigitOf bb)
+           if ds.isEmpty then (0, 0)
+           else (Spec.strtoValue t (s1.head? == some 45) (Spec.valueOf bb ds),
+                 (pre ++ s1).length - s3.length + ds.length)) := by
+  unfold strtoAt
+  rw [strtoSign_spec]
+  simp only [ok_bind]
+  have hsl := signLen_le s1
+  have e : pre ++ s1 = (pre ++ s1.take (Spec.signLen s1)) ++ s1.drop (Spec.signLen s1) := by
+    rw [List.append_assoc, List.take_append_drop]
+  have el : pre.length + Spec.signLen s1 = (pre ++ s1.take (Spec.signLen s1)).length := by
+    simp only [List.length_append, List.length_take]; omega
+  have hb2 : ∀ c ∈ s1.drop (Spec.signLen s1), c < 256 := fun c hc => hbytes c ((List.drop_sublist _ _).subset hc)
+  rw [e, el]
+  generalize s1.drop (Spec.signLen s1) = s2 at *
+  generalize (s1.head? == some 45) = neg
+  generalize pre ++ s1.take (Spec.signLen s1) = pre2
+  rw [strtoPrefix_spec pre2 s2 hb2]
+  simp only [ok_bind]
+  have u8 : 8 ≤ (⟨t.bits, false⟩ : IntTy).bits := h8
+  rcases hb with hb0 | hbr
+  · -- base 0: `to_integer` detects the base
+    subst hb0
+    have e0 : ((0 : Nat) : Int) = 0 := rfl
+    have e16 : (((0 : Int) == 16) && Spec.hexPrefix s2) = false := by simp
+    rw [e0]
+    simp only [e16, Bool.false_eq_true, if_false, Nat.add_zero]
+    have hle : pre2.length ≤ (pre2 ++ s2).length := by simp
+    rw [if_pos hle, List.drop_left]
+    have hchk := toInteger_auto ⟨t.bits, false⟩ u8 false s2 hb2
+    rw [parseAuto_unsigned _ rfl] at hchk
+    unfold Spec.autoOutcome at hchk
+    have hnc : ∀ n, Spec.digitsOutcome ⟨t.bits, false⟩ (Spec.autoBase s2) false (0 + if Spec.hexPrefix s2 then 2 else 0)
+        (if Spec.hexPrefix s2 then s2.drop 2 else s2) = .range n →
+        ∃ r, toIntegerNC ⟨t.bits, false⟩ false s2 0 = .ok r ∧ r.endPos = n := by
+      intro n hn
+      apply toIntegerNC_auto_end ⟨t.bits, false⟩ rfl u8 s2 hb2 n
+      rw [parseAuto_unsigned _ rfl]
+      exact hn
+    rw [strtoDigits_spec t h8 neg pre2.length s2 0 _ _ _ hchk hnc]
+    have hB : Spec.strtoBase s2 0 = Spec.autoBase s2 := by
+      unfold Spec.strtoBase Spec.autoBase; simp
+    have hR : Spec.strtoRest s2 0 = (if Spec.hexPrefix s2 then s2.drop 2 else s2) := by
+      unfold Spec.strtoRest; simp
+    rw [hB, hR]
+    cases hhex : Spec.hexPrefix s2 with
+    | false => simp
+    | true =>
+      have := hexPrefix_length hhex
+      simp only [if_true, List.length_append, List.length_drop]
+      congr 3
+      omega
+  · -- explicit base: the prefix is skipped here when the base is 16
+    have hb0 : (b == 0) = false := by simp; omega
+    have hB : Spec.strtoBase s2 b = b := by
+      unfold Spec.strtoBase
+      simp only [hb0, Bool.false_or, Bool.false_eq_true, if_false]
+      split
+      · rename_i h; simp at h; exact h.1.symm
+      · rfl
+    have hR : Spec.strtoRest s2 b = s2.drop (if ((b == 16) && Spec.hexPrefix s2) = true then 2 else 0) := by
+      unfold Spec.strtoRest
+      simp only [hb0, Bool.false_or]
+      split <;> simp
+    rw [hB, hR, cast_beq16]
+    generalize hpl : (if ((b == 16) && Spec.hexPrefix s2) = true then 2 else 0) = pl
+    have hpl2 : pl ≤ s2.length := by
+      subst hpl
+      split
+      · rename_i h; simp at h; have := hexPrefix_length h.2; omega
+      · omega
+    have hle : pre2.length + pl ≤ (pre2 ++ s2).length := by simp; omega
+    rw [if_pos hle, drop_add_append]
+    have hb3 : ∀ c ∈ s2.drop pl, c < 256 := fun c hc => hb2 c ((List.drop_sublist _ _).subset hc)
+    have hchk := toInteger_spec ⟨t.bits, false⟩ u8 false (s2.drop pl) hb3 b hbr
+    rw [parse_unsigned _ rfl] at hchk
+    have hnc : ∀ n, Spec.digitsOutcome ⟨t.bits, false⟩ b false 0 (s2.drop pl) = .range n →
+        ∃ r, toIntegerNC ⟨t.bits, false⟩ false (s2.drop pl) b = .ok r ∧ r.endPos = n := by
+      intro n hn
+      apply toIntegerNC_end ⟨t.bits, false⟩ rfl u8 (s2.drop pl) hb3 b hbr n
+      rw [parse_unsigned _ rfl]
+      exact hn
+    rw [strtoDigits_spec t h8 neg (pre2.length + pl) (s2.drop pl) b _ _ _ hchk hnc]
+    simp only [List.length_append, List.length_drop, Nat.zero_add]
+    congr 3
+    omega
+
+/-- `strto_integer` on any text with base 0 or 2..36: every read is inside the text, nothing overflows, and value
+    and end are those of the C grammar -/
+theorem strto_spec (t : IntTy) (h8 : 8 ≤ t.bits) (s : List Nat) (hbytes : ∀ c ∈ s, c < 256)
+    (b : Nat) (hb : b = 0 ∨ (2 ≤ b ∧ b ≤ 36)) :
+    strto t s b = .ok ((Spec.strto t s b).value, (Spec.strto t s b).endPos) := by
+  unfold strto
+  have hbase : (((b : Int) != 0) && (decide ((b : Int) < 2) || decide ((b : Int) > 36))) = false := by
+    rcases hb with hb | hb
+    · subst hb; rfl
+    · have : (decide ((b : Int) < 2) || decide ((b : Int) > 36)) = false := by
+        simp only [Bool.or_eq_false_iff, decide_eq_false_iff_not]; omega
+      rw [this, Bool.and_false]
+  simp only [hbase, Bool.false_eq_true, if_false]
+  have hsk := skipWs_spec s [] hbytes
+  simp only [List.nil_append, List.length_nil, Nat.zero_add] at hsk
+  rw [hsk]
+  simp only [ok_bind]
+  have h := strtoAt_spec t h8 (s.takeWhile Spec.isSpace) (s.dropWhile Spec.isSpace)
+    (fun c hc => hbytes c ((List.dropWhile_sublist _).subset hc)) b hb
+  rw [List.takeWhile_append_dropWhile] at h
+  rw [h, strto_fields]
 
 end Tetl.C10
